@@ -7,7 +7,9 @@ use crux_core::{Command, Request};
 use futures::stream::{self, BoxStream, StreamExt};
 use futures::FutureExt;
 use serde::{Deserialize, Serialize};
+use std::sync::atomic::{AtomicBool, Ordering};
 use std::sync::{Arc, Mutex};
+use std::task::{Context, Poll, Wake, Waker};
 
 #[derive(Serialize, Deserialize, Clone, PartialEq, Eq, Debug)]
 pub struct Sub(pub u64);
@@ -49,6 +51,56 @@ pub struct Scenario {
     pub settles: usize,
     /// one entry per shell thread: the actions it performs, in order: (stream, action)
     pub shells: Vec<Vec<(usize, Act)>>,
+    /// the command is polled as a `Stream` by a host that only polls when its waker was notified;
+    /// the host's waker is harness code and parks at the app-level gate "host.wake.gate" inside
+    /// `wake()` (i.e. it holds the waking thread at the moment it notifies the host)
+    pub hosted: bool,
+}
+
+/// parking points of a hosted scenario: the gate in the harness's own waker only
+pub const PARK_HOSTED: &[&str] = &["host.wake.gate"];
+
+#[derive(Default)]
+pub struct HostWaker {
+    notified: AtomicBool,
+}
+impl Wake for HostWaker {
+    fn wake(self: Arc<Self>) {
+        self.wake_by_ref();
+    }
+    fn wake_by_ref(self: &Arc<Self>) {
+        self.notified.store(true, Ordering::SeqCst);
+        ctl::point("host.wake.gate", 0);
+    }
+}
+
+/// Poll the command as a stream until it is pending; true if the stream ended.
+fn poll_hosted(cmd: &mut Command<Eff, Evt>, hw: &Arc<HostWaker>, events: &mut Vec<Evt>, effects: &mut Vec<Eff>) -> bool {
+    let waker = Waker::from(hw.clone());
+    let mut cx = Context::from_waker(&waker);
+    loop {
+        match cmd.poll_next_unpin(&mut cx) {
+            Poll::Ready(Some(crux_core::command::CommandOutput::Event(e))) => events.push(e),
+            Poll::Ready(Some(crux_core::command::CommandOutput::Effect(e))) => effects.push(e),
+            Poll::Ready(None) => return true,
+            Poll::Pending => return false,
+        }
+    }
+}
+
+/// One "settle" of the runner: direct API, or (hosted) a poll in reaction to a notification.
+fn settle_cmd(cmd: &mut Command<Eff, Evt>, hosted: bool, hw: &Arc<HostWaker>, ended: &AtomicBool) -> Vec<Evt> {
+    if !hosted {
+        return cmd.events().collect();
+    }
+    let mut events = Vec::new();
+    if !ended.load(Ordering::SeqCst) && hw.notified.swap(false, Ordering::SeqCst) {
+        let mut effects = Vec::new();
+        if poll_hosted(cmd, hw, &mut events, &mut effects) {
+            ended.store(true, Ordering::SeqCst);
+        }
+    }
+    events
 }
 
 pub const PARK: &[&str] = &[
@@ -70,6 +122,8 @@ pub struct Inst {
     ok: Arc<Mutex<Vec<Vec<u64>>>>,
     dropped: Arc<Mutex<Vec<bool>>>,
     events: Arc<Mutex<Vec<Evt>>>,
+    host: Arc<HostWaker>,
+    ended: Arc<AtomicBool>,
 }
 
 fn build_command(kinds: &[Kind]) -> Command<Eff, Evt> {
@@ -94,7 +148,16 @@ fn build_command(kinds: &[Kind]) -> Command<Eff, Evt> {
 pub fn make(sc: &Scenario) -> (Inst, Vec<Box<dyn FnOnce() + Send + 'static>>) {
     let mut cmd = build_command(&sc.kinds);
     let mut slots: Vec<Option<Request<Sub>>> = sc.kinds.iter().map(|_| None).collect();
-    for e in cmd.effects() {
+    let host = Arc::new(HostWaker::default());
+    let ended = Arc::new(AtomicBool::new(false));
+    let first: Vec<Eff> = if sc.hosted {
+        let (mut evs, mut effs) = (Vec::new(), Vec::new());
+        poll_hosted(&mut cmd, &host, &mut evs, &mut effs);
+        effs
+    } else {
+        cmd.effects().collect()
+    };
+    for e in first {
         let Eff::Sub(r) = e;
         let i = r.operation.0 as usize;
         slots[i] = Some(r);
@@ -113,16 +176,19 @@ pub fn make(sc: &Scenario) -> (Inst, Vec<Box<dyn FnOnce() + Send + 'static>>) {
         ok,
         dropped: Arc::new(Mutex::new(vec![false; sc.kinds.len()])),
         events: Arc::new(Mutex::new(Vec::new())),
+        host,
+        ended,
     };
     let mut threads: Vec<Box<dyn FnOnce() + Send + 'static>> = Vec::new();
     {
         let cmd = inst.cmd.clone();
         let events = inst.events.clone();
         let n = sc.settles;
+        let (hosted, host, ended) = (sc.hosted, inst.host.clone(), inst.ended.clone());
         threads.push(Box::new(move || {
             for _ in 0..n {
                 let mut c = cmd.lock().unwrap();
-                let evs: Vec<Evt> = c.events().collect();
+                let evs: Vec<Evt> = settle_cmd(&mut c, hosted, &host, &ended);
                 drop(c);
                 ctl::note("p2.settled", evs.len() as u64);
                 events.lock().unwrap().extend(evs);
@@ -303,7 +369,8 @@ pub struct Obs {
 pub fn finish(inst: Inst) -> Obs {
     let mut cmd = inst.cmd.lock().unwrap();
     let mut events = inst.events.lock().unwrap().clone();
-    events.extend(cmd.events());
+    let (hosted, host, ended) = (inst.sc.hosted, inst.host.clone(), inst.ended.clone());
+    events.extend(settle_cmd(&mut cmd, hosted, &host, &ended));
     let n = inst.sc.kinds.len();
     let dropped = inst.dropped.lock().unwrap().clone();
     let mut probes = vec![2u64; n];
@@ -322,15 +389,17 @@ pub fn finish(inst: Inst) -> Obs {
                 probes[i] = 0;
             }
         }
-        events.extend(cmd.events());
+        events.extend(settle_cmd(&mut cmd, hosted, &host, &ended));
     }
     // drop everything that is left so that the task can end, and look at is_done
     for i in 0..n {
         let r = inst.reqs[i].lock().unwrap().take();
         drop(r);
     }
-    events.extend(cmd.events());
-    let done = cmd.is_done();
+    events.extend(settle_cmd(&mut cmd, hosted, &host, &ended));
+    // hosted: done = the stream has ended, or the host was told of nothing more and the command has
+    // indeed nothing left (is_done settles the command: only looked at after the events were taken)
+    let done = if hosted { ended.load(Ordering::SeqCst) || cmd.is_done() } else { cmd.is_done() };
     let ok = inst.ok.lock().unwrap().clone();
     let mut streams = Vec::new();
     for i in 0..n {
@@ -415,7 +484,8 @@ pub fn case_json(sc: &Scenario, out: &RunOutcome, obs: &Obs, tag: &str) -> Strin
         .map(|s| format!("{{\"ok\":{:?},\"got\":{:?},\"spent\":{},\"probe\":{}}}", s.ok, s.got, s.spent, s.probe))
         .collect();
     format!(
-        "{{\"proto\":\"P2\",\"scen\":\"{}\",\"tag\":\"{}\",\"sched\":{:?},\"feasible\":{},\"hung\":{},\"panic\":{},\"slices\":[{}],\"streams\":[{}],\"ends\":{},\"expect_ends\":{},\"done\":{},\"trace\":{}}}",
+        "{{\"proto\":\"{}\",\"scen\":\"{}\",\"tag\":\"{}\",\"sched\":{:?},\"feasible\":{},\"hung\":{},\"panic\":{},\"slices\":[{}],\"streams\":[{}],\"ends\":{},\"expect_ends\":{},\"done\":{},\"trace\":{}}}",
+        if sc.hosted { "P2H" } else { "P2" },
         sc.name,
         tag,
         out.schedule,
